@@ -184,7 +184,7 @@ ADDED = {
     "C15": "R-ANGLESORT (contact polygon ordered by arctan2(y, x) about the centroid); R-BOUNDEDSTORE (counter-indexed stores into local buffers are bounded by a check or by the loop count); R-STIFFNESS: both terms of the contact-plane expression carry the same Young's-modulus exponents (dimensional bookkeeping with E1, E2 as units); "
            "R-HPLAYOUT: half-plane rows (px, py | dx, dy) are sliced only at pair boundaries. R-PLANECROSS also at the caller: before a polygon is built both tetrahedra are tested against the plane (no reduction over the stacked vertices of both). R-STIFFNESS followed from find_contact_surface to contact_plane with the exponents of the actual arguments.",
     "C16": "R-STIFFNESS (see C15). R-STIFFNESS followed through the call chain (a pressure field passed together with the modulus applies the stiffness twice).",
-    "C18": "R-COFACTORSIGN; R-ERICSON (jolt); Solution.from_vertex stores weight 1 in slot 0 (R-JOHNSON). R-BITMAP sees through extracted remap helpers; vertex candidates by effects (see C09). R-JOHNSONREC: all 43 cofactor stores of the original GJK's BarycentricCoordinates follow Johnson's recursion (factors resolved interprocedurally to y_i.(y_k - y_j)).",
+    "C18": "R-COFACTORSIGN; R-ERICSON (jolt); Solution.from_vertex stores weight 1 in slot 0 (R-JOHNSON). R-BITMAP sees through extracted remap helpers; vertex candidates by effects (see C09). R-JOHNSONOPT: each of the 23 tests in front of a sub-simplex of the main sub-algorithm is exactly Johnson's optimality condition (predicates expanded to literals). R-JOHNSONREC: all 43 cofactor stores of the original GJK's BarycentricCoordinates follow Johnson's recursion (factors resolved interprocedurally to y_i.(y_k - y_j)).",
     "C19": "R-BASISGUARD. Flag loops (`while not done: ...; done = E`) are classified through their normal form `while True: ...; if E: break`.",
     "C20": "R-BOUNDEDSTORE (see C15).",
 }
